@@ -705,3 +705,490 @@ def rules_problem(job, dims, costs=None):
                                     'shifts': [{'start': {'earliest': rfc3339(0), 'location': {'index': 0}}, 'end': {'latest': far, 'location': {'index': 0}}}],
                                     'capacity': [10] * dims}],
                       'profiles': [{'name': 'car'}]}}
+
+
+# ---------------------------------------------------------------------------------------------------------------------
+# C12: the solution checker - limits group
+
+class CheckerEnv(drivers.Env):
+    """Environment shared by the checker obligations: context look-ups answer from the template, time strings carry numbers."""
+
+    def override(self, engine, st, callee, args, dest_ty):
+        if callee.endswith('parse_time'):
+            v = deref_all(args[0])
+            if isinstance(v, Agg) and v.ty == 'FormattedTime':
+                return v.fields[0]
+            raise Inconclusive(f'parse_time of {v!r}')
+        if callee.split('::<')[0].endswith('format_time'):
+            return Agg('struct', [args[0]], 'FormattedTime')
+        if callee.endswith('CheckerContext::get_vehicle'):
+            return EnumV(dest_ty or 'Result', 0, {0: [RefV(Cell(self.vehicle), 0)]})
+        if callee.endswith('CheckerContext::get_vehicle_shift'):
+            return EnumV(dest_ty or 'Result', 0, {0: [symex.copy_value(self.shift)]})
+        if 'core::fmt::rt::' in callee or 'fmt::Arguments' in callee or callee.startswith('Arguments::'):
+            return Opaque('fmt argument')
+        if 'fmt::format' in callee or ']>::join' in callee or 'format_inner' in callee or callee in ('format', 'std::fmt::format', 'alloc::fmt::format'):
+            return Opaque('"formatted text"')
+        return super().override(engine, st, callee, args, dest_ty)
+
+
+def time_str(fv):
+    return Agg('struct', [fv], 'FormattedTime')
+
+
+def ob_checker_limits(ctx, acts_per_stop, has_end=True):
+    """C12 (limits group): `check_shift_limits`, `check_shift_time`, `check_recharge_limits` (real MIR) on one tour whose
+    statistic, stop distances, stop times, recharge flags and whose vehicle's optional limits are symbolic: each check
+    returns Ok exactly when the documented rule holds - distance <= max distance, duration <= max shift time, job
+    activities (all activities minus departure/arrival) <= tour size; departure and arrival within the shift; between two
+    recharge stops (and from the start) no more than the recharge distance limit is driven."""
+    n = len(acts_per_stop)
+    name = f'checker_limits[stops={"-".join(map(str, acts_per_stop))},{"closed" if has_end else "open"}]'
+    res = Result(name)
+    res.bounds = (f'one tour of {n} point stops with {acts_per_stop} activities; statistic distance/duration, stop distances and times integer-valued in [0,2^16]; '
+                  f'limits each present or absent, values in [0,2^16] (tour size in [0,8]); one shift ({"with" if has_end else "without"} end); recharge flag per stop symbolic')
+    t0 = time.time()
+    checks = {'shift_limits': ctx.prog.find_free('check_shift_limits'), 'shift_time': ctx.prog.find_free('check_shift_time'),
+              'recharge_limits': ctx.prog.find_free('check_recharge_limits')}
+    for cname, fn in checks.items():
+        env = CheckerEnv(ctx.prog, ctx.layout, 16)
+        eng, _ = ctx.engines(env)
+        holder = {}
+
+        def body(st, env=env, eng=eng, fn=fn, holder=holder):
+            env.assumptions.clear()
+            S = lambda nme, hi=None: env.sym_f(nme, 0, hi)
+            none = lambda ty: mk_option(False, ty=ty)
+            dist_stat = env.sym_i('stat_distance', 0, 2 ** 16, 'i64')
+            dur_stat = env.sym_i('stat_duration', 0, 2 ** 16, 'i64')
+            z = lambda: IV(0, 'i64')
+            statistic = env.struct('model::Statistic', cost=FV.const(0), distance=dist_stat, duration=dur_stat,
+                                   times=env.struct('model::Timing', driving=z(), serving=z(), waiting=z(), break_time=z(), commuting=z(), parking=z()))
+            stops, sd, arrs, deps, rech = [], [], [], [], []
+            for i, na in enumerate(acts_per_stop):
+                d = env.sym_i(f'stop{i}_distance', 0, 2 ** 16, 'i64')
+                a, dp = S(f'stop{i}_arrival'), S(f'stop{i}_departure')
+                r = z3.Bool(f'stop{i}_recharge')
+                acts = []
+                for j in range(na):
+                    # the first activity of a stop may be a recharge (symbolic); the type string answers only the comparison with "recharge"
+                    ty = Agg('struct', [BV(r)], 'StrIs:"recharge"') if j == 0 else Opaque('"delivery"')
+                    acts.append(env.struct('solution::model::Activity', job_id=Opaque('"job"'), activity_type=ty, location=none('Option<Location>'), time=none('Option<Interval>'),
+                                           job_tag=none('Option<String>'), commute=none('Option<Commute>')))
+                stops.append(EnumV('model::Stop', 0, {0: [env.struct('model::PointStop', location=Opaque('location'), time=env.struct('model::Schedule', arrival=time_str(a), departure=time_str(dp)),
+                                                                     distance=d, load=VecV([]), parking=none('Option<Interval>'), activities=VecV(acts))]}))
+                sd.append(d); arrs.append(a); deps.append(dp); rech.append(r)
+            tour = env.struct('solution::model::Tour', vehicle_id=Opaque('"v1"'), type_id=Opaque('"type1"'), shift_index=IV(0), stops=VecV(stops), statistic=statistic)
+            solution = env.struct('solution::model::Solution', statistic=Opaque('overall'), tours=VecV([tour]), unassigned=none('Option<Vec<UnassignedJob>>'),
+                                  violations=none('Option<Vec<Violation>>'), extras=none('Option<Extras>'))
+            has_md, has_mt, has_ts, has_lim, has_rc = (z3.Bool(x) for x in ('has_max_distance', 'has_max_duration', 'has_tour_size', 'has_limits', 'has_recharges'))
+            md, mt = S('max_distance'), S('max_duration')
+            ts = env.sym_i('tour_size', 0, 8)
+            limits = env.struct('problem::model::VehicleLimits', max_distance=mk_option(has_md, md, ty='Option<f64>'), max_duration=mk_option(has_mt, mt, ty='Option<f64>'),
+                                tour_size=mk_option(has_ts, ts, ty='Option<usize>'))
+            s_start, s_end = S('shift_start'), S('shift_end')
+            rmax = S('recharge_max_distance')
+            shift = env.struct('problem::model::VehicleShift',
+                               start=env.struct('problem::model::ShiftStart', earliest=time_str(s_start), latest=none('Option<String>'), location=Opaque('location')),
+                               end=mk_option(True, env.struct('problem::model::ShiftEnd', earliest=none('Option<String>'), latest=time_str(s_end), location=Opaque('location')),
+                                             ty='Option<ShiftEnd>') if has_end else none('Option<ShiftEnd>'),
+                               breaks=none('Option<Vec<VehicleBreak>>'), reloads=none('Option<Vec<VehicleReload>>'),
+                               recharges=mk_option(has_rc, env.struct('problem::model::VehicleRecharges', max_distance=rmax, stations=VecV([])), ty='Option<VehicleRecharges>'))
+            vo = ctx.layout.fields('problem::model::VehicleType')
+            vehicle = Agg('struct', [Opaque(f) for f in vo], 'problem::model::VehicleType')
+            vehicle.fields[vo.index('limits')] = mk_option(has_lim, limits, ty='Option<VehicleLimits>')
+            vehicle.fields[vo.index('shifts')] = VecV([shift])
+            env.vehicle, env.shift = vehicle, shift
+            co_ = ctx.layout.fields('checker::CheckerContext')
+            cctx = Agg('struct', [Opaque(f) for f in co_], 'checker::CheckerContext')
+            cctx.fields[co_.index('solution')] = solution
+            holder.update(dist_stat=dist_stat, dur_stat=dur_stat, sd=sd, arrs=arrs, deps=deps, rech=rech, md=md, mt=mt, ts=ts, s_start=s_start, s_end=s_end, rmax=rmax,
+                          flags=(has_md, has_mt, has_ts, has_lim, has_rc))
+            return eng.exec_fn(st, fn, [RefV(Cell(cctx), 0)])
+
+        paths = eng.explore(body, max_paths=8000)
+        res.paths += len(paths)
+        res.functions |= eng.functions_used
+        saw_ok = saw_err = False
+        for st, out in paths:
+            if out is None:
+                if not no_panic(ctx, res, env, st, what=f'{name} {cname}'):
+                    break
+                continue
+            h = holder
+            has_md, has_mt, has_ts, has_lim, has_rc = h['flags']
+            if cname == 'shift_limits':
+                jobs_acts = max(sum(acts_per_stop) - (2 if has_end else 1), 0)
+                rule = z3.Or(z3.Not(has_lim), z3.And(z3.Or(z3.Not(has_md), h['dist_stat'].t <= h['md'].v), z3.Or(z3.Not(has_mt), h['dur_stat'].t <= h['mt'].v),
+                                                     z3.Or(z3.Not(has_ts), jobs_acts <= h['ts'].t)))
+            elif cname == 'shift_time':
+                rule = z3.And(h['deps'][0].v >= h['s_start'].v, h['arrs'][-1].v <= h['s_end'].v if has_end else z3.BoolVal(True))
+            else:
+                if n < 2:
+                    rule = z3.BoolVal(True)
+                else:
+                    acc, oks = z3.IntVal(0), []
+                    for i in range(1, n):
+                        total = acc + (h['sd'][i].t - h['sd'][i - 1].t)
+                        oks.append(total <= h['rmax'].v)
+                        acc = z3.If(h['rech'][i], 0, total)
+                    rule = z3.Or(z3.Not(has_rc), z3.And(*oks))
+            is_ok = zs(out.discr == 0)
+            if not decide_claim(ctx, res, env, st, is_ok == rule, what=f'{name}: {cname} accepts <=> documented rule holds'):
+                if res.status == 'violated' and res.model is not None:
+                    m = res.model
+                    ev = lambda t: m.eval(t, model_completion=True).as_long()
+                    tr = lambda b: z3.is_true(m.eval(b, model_completion=True))
+                    lim = {}
+                    if tr(has_lim):
+                        if tr(has_md):
+                            lim['maxDistance'] = float(ev(h['md'].v))
+                        if tr(has_mt):
+                            lim['maxDuration'] = float(ev(h['mt'].v))
+                        if tr(has_ts):
+                            lim['tourSize'] = ev(h['ts'].t)
+                    stations = [{'location': {'index': i}, 'duration': 0.0} for i in range(n) if tr(h['rech'][i])] or [{'location': {'index': 0}, 'duration': 0.0}]
+                    shift_extra = {'recharges': {'maxDistance': float(ev(h['rmax'].v)), 'stations': stations}} if tr(has_rc) else {}
+                    stops_doc = []
+                    for i, na in enumerate(acts_per_stop):
+                        acts_doc = [{'jobId': 'dummy' if not (j == 0 and tr(h['rech'][i])) else 'recharge', 'type': 'recharge' if (j == 0 and tr(h['rech'][i])) else 'service'} for j in range(na)]
+                        stops_doc.append({'location': {'index': i}, 'time': {'arrival': rfc3339(ev(h['arrs'][i].v)), 'departure': rfc3339(ev(h['deps'][i].v))},
+                                          'distance': ev(h['sd'][i].t), 'load': [0], 'activities': acts_doc})
+                    res.case = {'kind': 'checker', 'group': 'limits', 'rule': cname, 'closed': has_end,
+                                'problem': checker_docs(n, vehicle_extra={'limits': lim} if tr(has_lim) else None, shift_extra=shift_extra,
+                                                        shift=(ev(h['s_start'].v), ev(h['s_end'].v) if has_end else 30 * 86400), closed=has_end),
+                                'matrix': {'profile': 'car', 'travelTimes': [0] * (n * n), 'distances': [0] * (n * n)},
+                                'solution': solution_doc(stops_doc, (ev(h['dist_stat'].t), ev(h['dur_stat'].t)))}
+                break
+            if not no_panic(ctx, res, env, st, what=f'{name} {cname}'):
+                break
+            saw_ok = saw_ok or witness(ctx, res, env, st, is_ok)
+            saw_err = saw_err or witness(ctx, res, env, st, z3.Not(is_ok))
+        if res.status != 'holds':
+            break
+        res.witnesses += int(saw_ok) + int(saw_err)
+        if not (saw_ok and (saw_err or (cname == 'recharge_limits' and n < 2))):
+            res.status, res.detail = 'inconclusive', f'vacuous for {cname}: ok={saw_ok} err={saw_err}'
+            break
+    res.time = time.time() - t0
+    return res
+
+
+DEMAND_KINDS = {'none': 0, 'sp': 1, 'sd': 2, 'spd': 3, 'dp': 4, 'dd': 5}      # capacity.rs DemandType order
+KIND_TYPE = {'none': 'service', 'sp': 'pickup', 'sd': 'delivery', 'spd': 'replacement', 'dp': 'pickup', 'dd': 'delivery'}
+
+
+def ob_checker_load(ctx, stops_kinds, dims=1):
+    """C12 (vehicle load): `check_vehicle_load_assignment` (real MIR incl. `get_intervals`, `get_activities_from_interval`,
+    all four folds; `MultiDimLoad` arithmetic, `can_fit` and equality from the MIR of vrp-core) on one tour: departure stop,
+    one stop per entry of `stops_kinds` (each a tuple of demand kinds of its activities), arrival stop; reported stop loads,
+    demand amounts and the vehicle capacity are symbolic.  Accepts exactly when (1) the load reported at the departure is
+    the sum of the static deliveries, (2) every stop's load is the previous one minus deliveries plus pickups of its
+    activities (replacement: unchanged), the arrival dropping the static pickups, and (3) every reported load fits the
+    capacity in every dimension."""
+    name = f'checker_load[{";".join(",".join(s) for s in stops_kinds)},dims={dims}]'
+    res = Result(name)
+    res.bounds = (f'one tour: departure + {len(stops_kinds)} stops with activities {stops_kinds} + arrival; {dims} dimension(s); amounts in [0,2^14], reported loads in '
+                  f'[-2^15,2^15], capacity in [0,2^15]; no reloads; the demand of an activity (look-up through the job index) is an environment answer')
+    t0 = time.time()
+    fn = ctx.prog.find_free('check_vehicle_load_assignment')
+    dt_enum = 'checker::capacity::DemandType'
+
+    class Env(CheckerEnv):
+        def override(self, engine, st, callee, args, dest_ty):
+            if callee.endswith('get_demand'):
+                act = deref_all(args[1])
+                jid = self.field(act, 'solution::model::Activity', 'job_id')
+                kind, amounts = self.demands[jid.name]
+                return EnumV(dest_ty or 'Result', 0, {0: [Agg('tuple', [EnumV(dt_enum, DEMAND_KINDS[kind], {}), mdl(amounts, dims)], '')]})
+            if callee.endswith('CheckerContext::get_activity_type'):
+                return EnumV(dest_ty or 'Result', 0, {0: [EnumV('checker::ActivityType', 0, {})]})
+            if callee.endswith('is_reload_stop'):
+                return BV(False)
+            return super().override(engine, st, callee, args, dest_ty)
+
+        def default_of(self, engine, ty):
+            base = re.sub(r'<.*$', '', ty).split('::')[-1]
+            if base == 'MultiDimLoad':
+                return mdl([], 0)
+            return super().default_of(engine, ty)
+
+    env = Env(ctx.prog, ctx.layout, 16)
+    eng, _ = ctx.engines(env)
+
+    def mdl(vals, size):
+        vals = list(vals) + [IV(0, 'i32')] * (8 - len(vals))
+        return env.struct('load::MultiDimLoad', load=Agg('array', [v if isinstance(v, IV) else IV(v, 'i32') for v in vals], '[i32; 8]'), size=IV(size))
+
+    holder = {}
+
+    def body(st):
+        env.assumptions.clear()
+        none = lambda ty: mk_option(False, ty=ty)
+        env.demands = {}
+        all_stops = [('departure',)] + [tuple(s) for s in stops_kinds] + [('arrival',)]
+        stops, loads, acts_info = [], [], []
+        dyn_amounts = None
+        for i, kinds in enumerate(all_stops):
+            load = [env.sym_i(f'stop{i}_load{d}', -2 ** 15, 2 ** 15, 'i32') for d in range(dims)]
+            acts, info = [], []
+            for j, kind in enumerate(kinds):
+                jid = f'"a{i}_{j}"'
+                if kind in ('departure', 'arrival'):
+                    ty = kind
+                    amounts = [IV(0, 'i32')] * dims
+                    env.demands[jid] = ('none', amounts)
+                elif kind in ('dp', 'dd'):
+                    # the two tasks of ONE pickup-and-delivery job: equal amounts (a valid problem satisfies E1102)
+                    ty = KIND_TYPE[kind]
+                    dyn_amounts = dyn_amounts or [env.sym_i(f'dyn_amount{d}', 0, 2 ** 14, 'i32') for d in range(dims)]
+                    amounts = dyn_amounts
+                    env.demands[jid] = (kind, amounts)
+                else:
+                    ty = KIND_TYPE[kind]
+                    amounts = [env.sym_i(f'a{i}_{j}_amount{d}', 0, 2 ** 14, 'i32') for d in range(dims)]
+                    env.demands[jid] = (kind, amounts)
+                info.append((kind, amounts))
+                acts.append(env.struct('solution::model::Activity', job_id=Opaque(jid), activity_type=Opaque(f'"{ty}"'), location=none('Option<Location>'),
+                                       time=none('Option<Interval>'), job_tag=none('Option<String>'), commute=none('Option<Commute>')))
+            stops.append(EnumV('model::Stop', 0, {0: [env.struct('model::PointStop', location=Opaque('location'), time=Opaque('schedule'), distance=IV(0, 'i64'),
+                                                                 load=VecV(list(load)), parking=none('Option<Interval>'), activities=VecV(acts))]}))
+            loads.append(load)
+            acts_info.append(info)
+        tour = env.struct('solution::model::Tour', vehicle_id=Opaque('"v1"'), type_id=Opaque('"type1"'), shift_index=IV(0), stops=VecV(stops), statistic=Opaque('statistic'))
+        solution = env.struct('solution::model::Solution', statistic=Opaque('overall'), tours=VecV([tour]), unassigned=none('Option<Vec<UnassignedJob>>'),
+                              violations=none('Option<Vec<Violation>>'), extras=none('Option<Extras>'))
+        capacity = [env.sym_i(f'capacity{d}', 0, 2 ** 15, 'i32') for d in range(dims)]
+        vo = ctx.layout.fields('problem::model::VehicleType')
+        vehicle = Agg('struct', [Opaque(f) for f in vo], 'problem::model::VehicleType')
+        vehicle.fields[vo.index('capacity')] = VecV(list(capacity))
+        env.vehicle, env.shift = vehicle, None
+        co_ = ctx.layout.fields('checker::CheckerContext')
+        cctx = Agg('struct', [Opaque(f) for f in co_], 'checker::CheckerContext')
+        cctx.fields[co_.index('solution')] = solution
+        holder.update(loads=loads, acts=acts_info, capacity=capacity)
+        return eng.exec_fn(st, fn, [RefV(Cell(cctx), 0)])
+
+    paths = eng.explore(body, max_paths=20000)
+    res.paths = len(paths)
+    res.functions |= eng.functions_used
+    saw_ok = saw_err = False
+    for st, out in paths:
+        if out is None:
+            if not no_panic(ctx, res, env, st, what=name):
+                break
+            continue
+        loads, acts, capacity = holder['loads'], holder['acts'], holder['capacity']
+        conds = []
+        for d in range(dims):
+            static_deliveries = sum([a[d].t for info in acts for k, a in info if k in ('sd', 'spd')], z3.IntVal(0))
+            static_pickups = sum([a[d].t for info in acts for k, a in info if k in ('sp', 'spd')], z3.IntVal(0))
+            conds.append(loads[0][d].t == static_deliveries)
+            for i in range(1, len(loads)):
+                change = z3.IntVal(0)
+                for k, a in acts[i]:
+                    if k in ('sd', 'dd'):
+                        change = change - a[d].t
+                    elif k in ('sp', 'dp'):
+                        change = change + a[d].t
+                    elif k == 'arrival':
+                        change = change - static_pickups
+                conds.append(loads[i][d].t == loads[i - 1][d].t + change)
+            for i in range(len(loads)):
+                conds.append(loads[i][d].t <= capacity[d].t)
+        rule = z3.And(*conds)
+        is_ok = zs(out.discr == 0)
+        if not decide_claim(ctx, res, env, st, is_ok == rule, what=f'{name}: accepted <=> reported loads follow the demands and fit the capacity'):
+            if res.status == 'violated' and res.model is not None:
+                m = res.model
+                ev = lambda t: m.eval(t, model_completion=True).as_long()
+                ns = len(loads)
+                jobs_doc, stops_doc = [], []
+                dyn = {}
+                for i, info in enumerate(acts):
+                    acts_doc = []
+                    for j, (k, a) in enumerate(info):
+                        if k in ('departure', 'arrival'):
+                            acts_doc.append({'jobId': k, 'type': k})
+                            continue
+                        jid = f'a{i}_{j}'
+                        task = {'places': [{'location': {'index': i}, 'duration': 0.0}]}
+                        if k != 'none':
+                            task['demand'] = [ev(x.t) for x in a]
+                        if k in ('dp', 'dd'):
+                            dyn.setdefault('tasks', {})['pickups' if k == 'dp' else 'deliveries'] = [task]
+                            acts_doc.append({'jobId': 'dyn', 'type': KIND_TYPE[k]})
+                            continue
+                        jobs_doc.append({'id': jid, {'sp': 'pickups', 'sd': 'deliveries', 'spd': 'replacements', 'none': 'services'}[k]: [task]})
+                        acts_doc.append({'jobId': jid, 'type': KIND_TYPE[k]})
+                    stops_doc.append({'location': {'index': i}, 'time': {'arrival': rfc3339(i), 'departure': rfc3339(i)}, 'distance': 0,
+                                      'load': [ev(x.t) for x in loads[i]], 'activities': acts_doc})
+                if dyn:
+                    jobs_doc.append(dict({'id': 'dyn'}, **dyn['tasks']))
+                res.case = {'kind': 'checker', 'group': 'load', 'rule': 'load', 'dims': dims,
+                            'problem': checker_docs(ns, jobs=jobs_doc or None, capacity=[ev(c.t) for c in capacity]),
+                            'matrix': {'profile': 'car', 'travelTimes': [0] * (ns * ns), 'distances': [0] * (ns * ns)},
+                            'solution': solution_doc(stops_doc, (0, ns - 1))}
+            break
+        if not no_panic(ctx, res, env, st, what=name):
+            break
+        saw_ok = saw_ok or witness(ctx, res, env, st, z3.And(is_ok, *[loads[0][d].t > 0 for d in range(dims)]) if any(k in ('sd', 'spd') for info in acts for k, _ in info) else is_ok)
+        saw_err = saw_err or witness(ctx, res, env, st, z3.Not(is_ok))
+    if res.status == 'holds':
+        res.witnesses = int(saw_ok) + int(saw_err)
+        if not (saw_ok and saw_err):
+            res.status, res.detail = 'inconclusive', f'vacuous: ok={saw_ok} err={saw_err}'
+    res.time = time.time() - t0
+    return res
+
+
+def ob_checker_routing(ctx, n):
+    """C12 (routing / statistics): `check_routing_rules` with `check_stop_statistic`, `check_tour_statistic`,
+    `check_solution_statistic`, `skip_distance_check` (real MIR) on one tour of n point stops whose reported times,
+    cumulative distances and statistics are symbolic and whose matrix is an uninterpreted function of the stop locations:
+    accepted exactly when every reported arrival is within one unit of previous departure + matrix duration, every reported
+    cumulative distance within one unit of the previous one + matrix distance (unless all reported distances are zero),
+    the tour statistic within one unit of the last stop's distance and of last departure - first departure, and the
+    solution statistic equals the tour's (distance, duration)."""
+    name = f'checker_routing[stops={n}]'
+    res = Result(name)
+    res.bounds = (f'one tour of {n} point stops (one activity each, no transit stops); reported times, distances and statistics integer-valued in [0,2^16]; '
+                  f'matrix = uninterpreted Dur/Dist(from index, to index) in [0,2^16]')
+    t0 = time.time()
+    fn = ctx.prog.find_free('check_routing_rules')
+
+    class Env(CheckerEnv):
+        def override(self, engine, st, callee, args, dest_ty):
+            if callee.endswith('CheckerContext::get_vehicle_profile'):
+                return EnumV(dest_ty or 'Result', 0, {0: [Opaque('profile')]})
+            if callee.endswith('CheckerContext::get_location_index'):
+                loc = deref_all(args[1])
+                return EnumV(dest_ty or 'Result', 0, {0: [loc.payload[1][0]]})
+            if callee.endswith('CheckerContext::get_matrix_data'):
+                a, b = args[2], args[3]
+                d, t = self.Dist(a.t, b.t), self.Dur(a.t, b.t)
+                st.assumed.append(z3.And(d >= 0, d <= self.bound, t >= 0, t <= self.bound))
+                return EnumV(dest_ty or 'Result', 0, {0: [Agg('tuple', [IV(d, 'i64'), IV(t, 'i64')], '')]})
+            if callee.endswith('_print') or 'io::_print' in callee:
+                return UnitV()
+            return super().override(engine, st, callee, args, dest_ty)
+
+        def default_of(self, engine, ty):
+            base = re.sub(r'<.*$', '', ty).split('::')[-1]
+            if base == 'Statistic':
+                z = lambda: IV(0, 'i64')
+                return self.struct('model::Statistic', cost=FV.const(0), distance=z(), duration=z(),
+                                   times=self.struct('model::Timing', driving=z(), serving=z(), waiting=z(), break_time=z(), commuting=z(), parking=z()))
+            return super().default_of(engine, ty)
+
+    env = Env(ctx.prog, ctx.layout, 16)
+    eng, _ = ctx.engines(env)
+    holder = {}
+
+    def body(st):
+        env.assumptions.clear()
+        none = lambda ty: mk_option(False, ty=ty)
+        z = lambda: IV(0, 'i64')
+        timing = lambda: env.struct('model::Timing', driving=z(), serving=z(), waiting=z(), break_time=z(), commuting=z(), parking=z())
+        td, tdur = env.sym_i('tour_distance', 0, 2 ** 16, 'i64'), env.sym_i('tour_duration', 0, 2 ** 16, 'i64')
+        sdist, sdur = env.sym_i('solution_distance', 0, 2 ** 16, 'i64'), env.sym_i('solution_duration', 0, 2 ** 16, 'i64')
+        stops, locs, arrs, deps, dists = [], [], [], [], []
+        for i in range(n):
+            loc = env.sym_i(f'loc{i}', 0, 1000)
+            a, d = env.sym_f(f'arrival{i}'), env.sym_f(f'departure{i}')
+            dist = env.sym_i(f'distance{i}', 0, 2 ** 16, 'i64')
+            act = env.struct('solution::model::Activity', job_id=Opaque(f'"a{i}"'), activity_type=Opaque('"delivery"'), location=none('Option<Location>'), time=none('Option<Interval>'),
+                             job_tag=none('Option<String>'), commute=none('Option<Commute>'))
+            stops.append(EnumV('model::Stop', 0, {0: [env.struct('model::PointStop', location=EnumV('format::Location', 1, {1: [loc]}),
+                                                                 time=env.struct('model::Schedule', arrival=time_str(a), departure=time_str(d)),
+                                                                 distance=dist, load=VecV([]), parking=none('Option<Interval>'), activities=VecV([act]))]}))
+            locs.append(loc); arrs.append(a); deps.append(d); dists.append(dist)
+        tour = env.struct('solution::model::Tour', vehicle_id=Opaque('"v1"'), type_id=Opaque('"type1"'), shift_index=IV(0), stops=VecV(stops),
+                          statistic=env.struct('model::Statistic', cost=FV.const(0), distance=td, duration=tdur, times=timing()))
+        solution = env.struct('solution::model::Solution', statistic=env.struct('model::Statistic', cost=FV.const(0), distance=sdist, duration=sdur, times=timing()),
+                              tours=VecV([tour]), unassigned=none('Option<Vec<UnassignedJob>>'), violations=none('Option<Vec<Violation>>'), extras=none('Option<Extras>'))
+        co_ = ctx.layout.fields('checker::CheckerContext')
+        cctx = Agg('struct', [Opaque(f) for f in co_], 'checker::CheckerContext')
+        cctx.fields[co_.index('solution')] = solution
+        cctx.fields[co_.index('matrices')] = mk_option(True, VecV([Opaque('matrix')]), ty='Option<Vec<Matrix>>')
+        env.vehicle = env.shift = None
+        holder.update(td=td, tdur=tdur, sdist=sdist, sdur=sdur, locs=locs, arrs=arrs, deps=deps, dists=dists)
+        return eng.exec_fn(st, fn, [RefV(Cell(cctx), 0)])
+
+    paths = eng.explore(body, max_paths=20000)
+    res.paths = len(paths)
+    res.functions |= eng.functions_used
+    saw_ok = saw_err = False
+    near = lambda a, b: z3.And(a - b <= 1, b - a <= 1)
+    for st, out in paths:
+        h = holder
+        dom = []
+        for i in range(1, n):
+            d, t = env.Dist(h['locs'][i - 1].t, h['locs'][i].t), env.Dur(h['locs'][i - 1].t, h['locs'][i].t)
+            dom.append(z3.And(d >= 0, d <= env.bound, t >= 0, t <= env.bound))
+        if out is None:
+            if not no_panic(ctx, res, env, st, dom, what=name):
+                break
+            continue
+        skip = z3.And(*[x.t == 0 for x in h['dists']])
+        conds = []
+        for i in range(1, n):
+            conds.append(near(h['deps'][i - 1].v + env.Dur(h['locs'][i - 1].t, h['locs'][i].t), h['arrs'][i].v))
+            prev_d = h['dists'][i - 1].t if i > 1 else z3.IntVal(0)
+            conds.append(z3.Or(skip, near(prev_d + env.Dist(h['locs'][i - 1].t, h['locs'][i].t), h['dists'][i].t)))
+        last_d = h['dists'][-1].t if n > 1 else z3.IntVal(0)
+        conds.append(z3.Or(skip, near(last_d, h['td'].t)))
+        conds.append(near(h['deps'][-1].v - h['deps'][0].v, h['tdur'].t))
+        conds.append(z3.And(h['sdist'].t == h['td'].t, h['sdur'].t == h['tdur'].t))
+        rule = z3.And(*conds)
+        is_ok = zs(out.discr == 0)
+        if not decide_claim(ctx, res, env, st, is_ok == rule, dom, what=f'{name}: accepted <=> reported times / distances / statistics match the matrix within one unit'):
+            if res.status == 'violated' and res.model is not None:
+                m = res.model
+                ev = lambda t: m.eval(t, model_completion=True).as_long()
+                durs = [[0 if i == j else ev(env.Dur(h['locs'][i].t, h['locs'][j].t)) for j in range(n)] for i in range(n)]
+                dsts = [[0 if i == j else ev(env.Dist(h['locs'][i].t, h['locs'][j].t)) for j in range(n)] for i in range(n)]
+                same = len({ev(l.t) for l in h['locs']}) < n
+                stops_doc = [{'location': {'index': i}, 'time': {'arrival': rfc3339(ev(h['arrs'][i].v)), 'departure': rfc3339(ev(h['deps'][i].v))},
+                              'distance': ev(h['dists'][i].t), 'load': [0], 'activities': [{'jobId': 'dummy', 'type': 'service'}]} for i in range(n)]
+                if not same:
+                    res.case = {'kind': 'checker', 'group': 'routing', 'rule': 'routing',
+                                'problem': checker_docs(n), 'matrix': {'profile': 'car', 'travelTimes': [x for r in durs for x in r], 'distances': [x for r in dsts for x in r]},
+                                'solution': solution_doc(stops_doc, (ev(h['td'].t), ev(h['tdur'].t)), overall=(ev(h['sdist'].t), ev(h['sdur'].t)))}
+            break
+        if not no_panic(ctx, res, env, st, dom, what=name):
+            break
+        saw_ok = saw_ok or witness(ctx, res, env, st, z3.And(is_ok, z3.Not(skip)), dom)
+        saw_err = saw_err or witness(ctx, res, env, st, z3.Not(is_ok), dom)
+    if res.status == 'holds':
+        res.witnesses = int(saw_ok) + int(saw_err)
+        if not (saw_ok and saw_err):
+            res.status, res.detail = 'inconclusive', f'vacuous: ok={saw_ok} err={saw_err}'
+    res.time = time.time() - t0
+    return res
+
+
+# ---------------------------------------------------------------------------------------------------------------------
+# checker replay documents (problem / matrix / solution JSON) from solver models
+
+def checker_docs(n_locations, vehicle_extra=None, shift_extra=None, jobs=None, capacity=(10,), shift=(0, 30 * 86400), closed=True):
+    far = rfc3339(shift[1])
+    shift_doc = {'start': {'earliest': rfc3339(shift[0]), 'location': {'index': 0}}}
+    if closed:
+        shift_doc['end'] = {'latest': far, 'location': {'index': 0}}
+    shift_doc.update(shift_extra or {})
+    vehicle = {'typeId': 'type1', 'vehicleIds': ['v1'], 'profile': {'matrix': 'car'}, 'costs': {'fixed': 1.0, 'distance': 1.0, 'time': 1.0},
+               'shifts': [shift_doc], 'capacity': list(capacity)}
+    vehicle.update(vehicle_extra or {})
+    jobs = list(jobs or [{'id': 'dummy', 'services': [{'places': [{'location': {'index': max(n_locations - 1, 0)}, 'duration': 0.0}]}]}])
+    # the routing index needs every location index 0..n-1 to occur in the problem
+    jobs += [{'id': f'fill{i}', 'services': [{'places': [{'location': {'index': i}, 'duration': 0.0}]}]} for i in range(1, n_locations)]
+    problem = {'plan': {'jobs': jobs}, 'fleet': {'vehicles': [vehicle], 'profiles': [{'name': 'car'}]}}
+    return problem
+
+
+def solution_doc(stops, statistic, overall=None):
+    times0 = {'driving': 0, 'serving': 0, 'waiting': 0, 'break': 0, 'commuting': 0, 'parking': 0}
+    stat = {'cost': 0.0, 'distance': statistic[0], 'duration': statistic[1], 'times': times0}
+    ov = {'cost': 0.0, 'distance': (overall or statistic)[0], 'duration': (overall or statistic)[1], 'times': times0}
+    return {'statistic': ov, 'tours': [{'vehicleId': 'v1', 'typeId': 'type1', 'shiftIndex': 0, 'stops': stops, 'statistic': stat}]}
